@@ -87,7 +87,7 @@ func Plan(out string, seed uint64, tier string, scenario string, count int, epoc
 	}
 	perScenario := map[string]int{}
 	var plan []ChainParams
-	totalCorrupt, totalCancel, totalEngine := 300, 6, 6
+	totalCorrupt, totalCancel, totalEngine := 150, 6, 6 // (random part; the coverage phase adds every kind / variant / fork)
 	epochs := 8
 	if !quick {
 		totalCorrupt, totalCancel, totalEngine = 10000, 60, 120
@@ -283,7 +283,18 @@ func CLI(args []string) int {
 			sem <- struct{}{}
 			defer func() { <-sem }()
 			os.RemoveAll(plan[i].Dir)
+			plan[i].DeferFinish = true
 			results[i] = Generate(plan[i])
+		}(i)
+	}
+	wg.Wait()
+	// C03 coverage: every corruption kind / variant / fork the random streams left out, spread over the chains of the run
+	CoverPhase(results, seed, tier)
+	for i := range results {
+		wg.Add(1)
+		go func(i int) {
+			defer wg.Done()
+			results[i].Finalize()
 		}(i)
 	}
 	wg.Wait()
@@ -329,6 +340,8 @@ func CLI(args []string) int {
 // RequiredQuick: counters (summary.json: per_fork.<fork>.<k> for "<fork>.<k>", else counts.<k>) that must be non-zero in
 // every quick run.
 var RequiredQuick = []string{
+	// round 13: the corruption coverage itself is derived from the table (RequiredCover, cover.go); the two kinds outside the table:
+	"corrupt.random_bytes", "corrupt.wrong_pre_state",
 	// round 12
 	"deneb.exit_with_capella_deneb_same_epoch", "deposit_fork_side_key_foreign_pop_skipped",
 	"kickstart_undecodable_pubkeys_counted_as_deposits", "genesis_cases_with_fork_at_epoch_0_ok",
@@ -356,8 +369,6 @@ var RequiredQuick = []string{
 	"deposit_fork_conflicting_registration",
 	"phase0.att_overlap_fewer_flags_last_phase0_epoch",
 	"phase0_leak_epochs_with_wrong_target_votes",
-	"corrupt_per_fork.att_bits_shorter@phase0", "corrupt_per_fork.att_bits_shorter@altair", "corrupt_per_fork.att_bits_shorter@bellatrix",
-	"corrupt_per_fork.att_bits_shorter@capella", "corrupt_per_fork.att_bits_shorter@deneb",
 	"corrupt.deposit_none", "corrupt.deposit_missing", "corrupt.deposit_unexpected",
 	"corrupt.wrong_pre_state_pre_advanced", "slots_records_target_equals_current",
 	"altair_fork_on_sync_period_boundary",
@@ -470,14 +481,15 @@ func Summarize(results []ChainResult, seed uint64, tier string, secs float64) ma
 		other["pslash_evidence_epoch_outside_window_total"] += perFork[f]["pslash_evidence_epoch_outside_window"]
 		other["aslash_evidence_epoch_outside_window_total"] += perFork[f]["aslash_evidence_epoch_outside_window"]
 	}
-	for _, k := range RequiredQuick {
+	required := append(append([]string(nil), RequiredQuick...), RequiredCover()...)
+	for _, k := range required {
 		if get(k) == 0 {
 			reqMissing = append(reqMissing, k)
 		}
 	}
 	sort.Strings(problems)
 	return map[string]interface{}{
-		"required_missing": reqMissing, "required": RequiredQuick,
+		"required_missing": reqMissing, "required": required,
 		"missing_fork_ops": missing,
 		"seed":             seed, "tier": tier, "seconds": secs, "bytes": bytes, "chains": chains,
 		"per_fork": perFork, "counts": other, "problems": problems, "unmet_expectations": unmet,
